@@ -270,17 +270,28 @@ pub fn run(ctx: &Ctx) -> Report {
     let types: Vec<i32> = if cfg!(miri) { vec![1, 15, 31] } else { TYPES.to_vec() };
     // work item = (type, with_shx, block of words)
     let blocks = 16usize;
-    let items: Vec<(i32, bool, usize)> = types.iter().flat_map(|&t| [true, false].into_iter().flat_map(move |x| (0..blocks).map(move |b| (t, x, b)))).collect();
+    // (type, with index, block of words, shape-pair variant). Variant 1 (Z / M types): shape a has
+    // every Z = +inf and every M = -inf, shape b ordinary finite values on both sides of 0 — the
+    // header ranges then depend on WHEN the running box is reset.
+    let items: Vec<(i32, bool, usize, usize)> = types
+        .iter()
+        .flat_map(|&t| [true, false].into_iter().flat_map(move |x| (0..blocks).flat_map(move |b| (0..if gen::carries_m(t) && !cfg!(miri) { 2 } else { 1 }).map(move |v| (t, x, b, v)))))
+        .collect();
     let mut rep = par(ctx, items.len(), |idx, rep| {
-        let (t, with_shx, block) = items[idx];
+        let (t, with_shx, block, variant) = items[idx];
         let mut r = Rng::derive(ctx.seed, &[tag("c09"), t as u64]);
         let (sa, sb) = gen::two_sizes(t, &mut r);
+        let (sa, sb) = if variant == 1 {
+            (crate::shapes::with_uniform_z_m(&sa, f64::INFINITY, f64::NEG_INFINITY), crate::shapes::with_uniform_z_m(&sb, -2.5, 3.5))
+        } else {
+            (sa, sb)
+        };
         for (wi, word) in words.iter().enumerate() {
             if wi % blocks != block {
                 continue;
             }
             for ending in 0..4 {
-                let case = format!("c09:t{}:x{}:w{}:e{}", t, with_shx as u8, wi, ending);
+                let case = format!("c09:t{}:x{}:w{}:e{}{}", t, with_shx as u8, wi, ending, if variant == 1 { ":inf" } else { "" });
                 if !ctx.want(&case) {
                     continue;
                 }
@@ -315,7 +326,7 @@ pub fn run(ctx: &Ctx) -> Report {
                 }
             }
             // a sample of the words also through from_path, on disk
-            if with_shx && !cfg!(miri) && wi % ctx.pick(11, 5) == 3 {
+            if with_shx && variant == 0 && !cfg!(miri) && wi % ctx.pick(11, 5) == 3 {
                 let case = format!("c09:t{}:disk:w{}", t, wi);
                 if ctx.want(&case) {
                     on_disk(t, word, &sa, &sb, &dir, &case, rep);
@@ -325,7 +336,7 @@ pub fn run(ctx: &Ctx) -> Report {
     });
     if ctx.only.is_none() {
         let e = rep.evaluations;
-        rep.guard("histories enumerated", e, (types.len() * 2 * words.len() * 4) as u64);
+        rep.guard("histories enumerated", e, (types.len() * 2 * words.len() * 4) as u64);  // variant 1 adds to this
         let f = rep.counters.get("noop_finalize_calls_observed").copied().unwrap_or(0);
         rep.guard("no-op finalize calls observed", f, 100);
         if !cfg!(miri) {
